@@ -184,6 +184,10 @@ func runC12(c *ctx) {
 		contents := make([]map[string][]byte, n)
 		for i := 0; i < n; i++ {
 			reps[i] = newRawStore()
+			// a replica without the blob may also fail in its own way (a remote that timed out, a cancelled request of its
+			// own, an I/O error): the fall-back to the next replica must not depend on the kind of failure
+			reps[i].missErr = []error{nil, nil, fmt.Errorf("verif: replica %d: i/o error", i),
+				fmt.Errorf("verif: replica %d: %w", i, context.DeadlineExceeded), fmt.Errorf("verif: replica %d: %w", i, context.Canceled)}[c.rng.Intn(5)]
 			contents[i] = map[string][]byte{}
 			pre := fmt.Sprintf("/r%d/", i)
 			ld.set(pre, reps[i])
